@@ -1529,7 +1529,12 @@ class AllConnGraph(nx.DiGraph):
                 if indices is None:
                     model._inputs._abs_set_val(node[1], tval)
                 else:
-                    model._inputs._abs_set_val(node[1], tval, idx=indices())
+                    idx = indices()
+                    if isinstance(tval, np.ndarray) and tval.ndim > 0 and tval.size == 1 and \
+                            np.ndim(model._inputs._abs_get_val(node[1], flat=False)[idx]) == 0:
+                        # a scalar-selecting index takes a scalar value
+                        tval = tval.ravel()[0]
+                    model._inputs._abs_set_val(node[1], tval, idx=idx)
         else:
             srcval = src_meta.val
 
